@@ -25,24 +25,50 @@ _ASSIGN = re.compile(r"^\s*(\w+)\s*(=[|$]*)\s*(.*)$")
 REJECT = "ValueError: Can't use eval operator in safe mode"
 
 
+def value_class(text: str, plain: bool) -> str:
+    """Class of the value text of an assignment (classification of the INPUT, by parsing it):
+    'special' one of the parser's plain forms (only looked for under plain '='), 'lit' a Python literal,
+    'expr' a Python expression that is not a literal, 'junk' not an expression."""
+    import ast
+    if plain:
+        if re.match(r"\[\[(\w+)]]", text) or text.startswith("<") or re.match(r"\A\w+-\w+-.*", text) or text in ("inf", "-inf", "nan"):
+            return "special"
+    try:
+        ast.parse(text.lstrip(" \t"), mode="eval")
+    except (SyntaxError, ValueError, MemoryError, RecursionError):
+        return "junk"
+    try:
+        ast.literal_eval(text)          # the standard library's own definition of "literal"
+        return "lit"
+    except Exception:  # noqa
+        return "expr"
+
+
 def tokenize(text: str):
-    """The parser's own lexical view of a text: one token per stripped non-blank line."""
+    """The parser's own lexical view of a text: one token per stripped non-blank line.  An assignment token also
+    carries the class of its whole value (continuation lines joined the way the parser joins them)."""
+    lines = [x.strip() for x in text.split("\n") if x.strip()]
     toks = []
-    for line in (x.strip() for x in text.split("\n")):
-        if not line:
-            continue
+    for i, line in enumerate(lines):
         bs = line.endswith("\\")
         if _COMMENT.match(line):
-            toks.append({"k": "comment", "name": "", "pk": False, "ev": False, "bs": bs})
+            toks.append({"k": "comment", "name": "", "pk": False, "ev": False, "bs": bs, "val": "none"})
         elif line.startswith("["):
             m = re.search(r"\w+", line)
-            toks.append({"k": "block" if m else "other", "name": m.group(0) if m else "", "pk": False, "ev": False, "bs": bs})
+            toks.append({"k": "block" if m else "other", "name": m.group(0) if m else "", "pk": False, "ev": False, "bs": bs, "val": "none"})
         else:
             m = _ASSIGN.match(line)
             if m:
-                toks.append({"k": "assign", "name": m.group(1), "pk": "|" in m.group(2), "ev": "$" in m.group(2), "bs": bs})
+                val, j = m.group(3), i + 1
+                while val.endswith("\\"):
+                    val = val[:-1].rstrip()
+                    if j < len(lines):
+                        val += lines[j]
+                        j += 1
+                toks.append({"k": "assign", "name": m.group(1), "pk": "|" in m.group(2), "ev": "$" in m.group(2), "bs": bs,
+                             "val": value_class(val, m.group(2) == "=")})
             else:
-                toks.append({"k": "other", "name": "", "pk": False, "ev": False, "bs": bs})
+                toks.append({"k": "other", "name": "", "pk": False, "ev": False, "bs": bs, "val": "none"})
     return toks
 
 
@@ -87,7 +113,16 @@ def abstract(msg, text):
                 k = 1
                 if span:
                     k = 1 + sum(1 for ln in str(text)[span[0]:span[1]].split("\n") if ln.rstrip().endswith("\\"))
-                vs.append({"n": vname, "ser": ser is not None, "pretty": pretty, "inline": inline, "k": k})
+                vk = pvk = "lit"
+                if span:
+                    # classes of the printed values of this variable: the first "=|" and the first plain "=" line of its span
+                    for t in tokenize(str(text)[span[0]:span[1]].replace("\n  #", "\n  ")):
+                        if t["k"] == "assign" and t["name"] == vname:
+                            if t["pk"]:
+                                pvk = t["val"]
+                            else:
+                                vk = t["val"]
+                vs.append({"n": vname, "ser": ser is not None, "pretty": pretty, "inline": inline, "k": k, "vk": vk, "pvk": pvk})
             insts.append(vs)
         blocks.append({"name": bname, "inst": insts})
     ncom = (1 if msg.packet_id is not None else 0) + (1 if msg.extra else 0)
@@ -215,14 +250,31 @@ def classify_text(m, m2, tmpl, ev, beautify):
 
 # ---- text mutation for the safe-mode clause
 _OPS = ["=$", "=|$", "=$|", "=$$", "= $", "=| $"]
+# expressions that need no builtins and no names; none of them is a literal.  Most evaluate to a small int
+# (so that a packer for an enum/flag field would take the result), some raise only if they are run.
+_EXPRS = ["2.0 ** 10", "3 * 4", "7 // 2", "-(2 ** 3)", "1 + 1", "1 / 0", "1 if () else 2", "0 or 5", "not 0", "1 < 2",
+          "(3).bit_length()", "'a'.upper()", "().__class__.__name__", "().__class__.__bases__[0].__subclasses__().__len__()",
+          "'%d' % 5", "[x for x in (1, 2)][0]", "{k: 1 for k in 'a'}", "(lambda: 7)()", "(y := 5)", "f'{1 + 1}'", "(1, 2)[0]",
+          "[*(1, 2)]", "{}['k']", "inf", "(1, inf)", "x", "len('ab')", "2 ** 2 ** 2", "('A',) + ('B',)", "5 & 4 | 1"]
+_LITS = ["5", "'text'", "(1, 2)", "-1", "1+2j", "('A', 'B')", "b'\\x00'", "{'a': [1, None, True]}"]
 
 
 def mutate(rng, text):
     lines = text.split("\n")
     for _ in range(rng.choice([1, 1, 2, 3])):
         idx = [i for i, ln in enumerate(lines) if _ASSIGN.match(ln.strip()) and not _COMMENT.match(ln.strip())]
-        c = rng.randrange(8)
-        if c == 0 and idx:       # operator substitution
+        c = rng.randrange(11)
+        if c >= 8 and idx:       # the value of a "=" / "=|" line replaced by a non-literal expression (or a control literal)
+            i = rng.choice(idx)
+            m_ = _ASSIGN.match(lines[i].strip())
+            op = m_.group(2) if "$" not in m_.group(2) and rng.random() < 0.7 else rng.choice(["=", "=|"])
+            lines[i] = "  %s %s %s" % (m_.group(1), op, rng.choice(_EXPRS) if rng.random() < 0.85 else rng.choice(_LITS))
+            # a value that was continued over several lines loses its continuation lines
+            while i + 1 < len(lines) and m_.group(3).rstrip().endswith("\\"):
+                m3 = lines.pop(i + 1)
+                if not m3.rstrip().endswith("\\"):
+                    break
+        elif c == 0 and idx:       # operator substitution
             i = rng.choice(idx)
             lines[i] = re.sub(r"=[|$]*", lambda m_: rng.choice(_OPS), lines[i], count=1)
         elif c == 1 and idx:     # value replaced by an expression
@@ -257,7 +309,8 @@ def fuzz_event(text, safe):
     toks = tokenize(text)
     _EVALS[0] = 0
     st, r = impl_call(H.from_human_string, text, None, {"HIT": _hit}, safe)
-    return {"ev": "Fuzz", "toks": toks, "safe": safe, "outcome": "ok" if st == "ok" else r, "evaluated": _EVALS[0] > 0}
+    okind = "ok" if st == "ok" else ("arith" if str(r).split(":")[0] in ("ZeroDivisionError", "OverflowError") else "exc")
+    return {"ev": "Fuzz", "toks": toks, "safe": safe, "outcome": "ok" if st == "ok" else r, "okind": okind, "evaluated": _EVALS[0] > 0}
 
 
 _JOBS = None
@@ -302,30 +355,40 @@ def _run_job(job_no):
                                         "style": style, "lines": len(ev["toks"])}))
             if text:
                 texts.append(text)
-        fz = []
+        fz, fz_texts = [], []
         for _ in range(n_fuzz):
             if not texts:
                 break
             t2 = mutate(rng, rng.choice(texts))
             for safe in (True, False):
                 fz.append(fuzz_event(t2, safe))
+                fz_texts.append(t2[:1200])
         if fz:
-            out.append((tid, ti, fz, {"fuzz": True}))
+            out.append((tid, ti, fz, {"fuzz": True, "texts": fz_texts}))
     return out
 
 
-def _cfg(spec, big, allow_empty, fuzz_len, invs):
-    return ("SPECIFICATION %s\nCONSTANTS Big = %s AllowEmpty = %s FuzzLen = %d\n Msgs <- MCMsgs\n Alphabet <- MCAlphabet\n%s" %
-            (spec, "TRUE" if big else "FALSE", "TRUE" if allow_empty else "FALSE", fuzz_len, "".join("INVARIANT %s\n" % i for i in invs)))
+def _cfg(spec, big, allow_empty, fuzz_len, invs, fallback=False):
+    return ("SPECIFICATION %s\nCONSTANTS Big = %s AllowEmpty = %s FuzzLen = %d Fallback = %s\n Msgs <- MCMsgs\n Alphabet <- MCAlphabet\n%s" %
+            (spec, "TRUE" if big else "FALSE", "TRUE" if allow_empty else "FALSE", fuzz_len, "TRUE" if fallback else "FALSE",
+             "".join("INVARIANT %s\n" % i for i in invs)))
 
 
-TRACE_CFG = ("SPECIFICATION TraceSpec\nCONSTANTS FuzzLen = 0\n Msgs <- NoMsgs\n Alphabet <- NoMsgs\n"
+TRACE_CFG = ("SPECIFICATION TraceSpec\nCONSTANTS FuzzLen = 0 Fallback = FALSE\n Msgs <- NoMsgs\n Alphabet <- NoMsgs\n"
              "POSTCONDITION TraceAccepted\nCHECK_DEADLOCK FALSE\n")
 
 
 def _model(chk: Check, big, fuzz_len):
-    invs = ["SafeNeverEvaluates", "RejectsOnlyEval", "StepIsRunAll", "ReadsBack", "StructurePreserved"]
+    invs = ["SafeNeverEvaluates", "RejectsOnlyEval", "OnlyEvalOperatorEvaluates", "StepIsRunAll", "ReadsBack", "StructurePreserved"]
     common.model_check(chk, "HumanText_MBT", _cfg("Spec", big, False, fuzz_len, invs), "HumanText laws + line fuzz len<=%d" % fuzz_len)
+    # the safe-mode law bites: a parser that falls back to running "=|" values the literal parser rejects is refuted by TLC
+    cfgp = os.path.join(chk.scratch, "ht-fallback.cfg")
+    with open(cfgp, "w") as f:
+        f.write(_cfg("Spec", False, False, 2, invs, fallback=True))
+    res = common.run_tlc(os.path.join(common.SPECS, "HumanText_MBT.tla"), cfgp, workers=1, scratch=chk.scratch)
+    chk.add_tlc(res, "HumanText with an evaluating fallback for packed values (must be refuted)")
+    if not ({"SafeNeverEvaluates", "OnlyEvalOperatorEvaluates"} & set(res.violated)):
+        raise common.MachineryError("the safe-mode law does not refute an evaluating fallback: %r" % res.violated)
     # Variable blocks may have zero instances on the wire: the same laws over messages that have such blocks
     cfgp = os.path.join(chk.scratch, "ht-empty.cfg")
     with open(cfgp, "w") as f:
@@ -360,13 +423,17 @@ def _texts(chk: Check, per_template, n_fuzz):
     chk.cov["traces_validated_against_impl"] += len(traces)
     chk.count(sum(len(t) for t in traces))
     stats = {"texts": 0, "beautified": 0, "with_replacements": 0, "multi_line_values": 0, "packed_lines": 0, "fuzz_texts": 0,
-             "fuzz_rejected": 0, "fuzz_evaluated_unsafe": 0, "fuzz_with_eval_operator": 0}
+             "fuzz_rejected": 0, "fuzz_evaluated_unsafe": 0, "fuzz_with_eval_operator": 0, "fuzz_nonliteral_values": 0,
+             "fuzz_nonliteral_refused": 0}
     for n, (tid, ti, evs, info) in enumerate(res):
         if info.get("fuzz"):
             stats["fuzz_texts"] += len(evs)
             stats["fuzz_rejected"] += sum(e["outcome"] == REJECT for e in evs)
             stats["fuzz_evaluated_unsafe"] += sum(e["evaluated"] and not e["safe"] for e in evs)
             stats["fuzz_with_eval_operator"] += sum(any(t["ev"] for t in e["toks"]) for e in evs)
+            nl = [e for e in evs if any(t["k"] == "assign" and not t["ev"] and t["val"] in ("expr", "junk") for t in e["toks"])]
+            stats["fuzz_nonliteral_values"] += len(nl)
+            stats["fuzz_nonliteral_refused"] += sum(e["okind"] == "exc" for e in nl)
             continue
         ev = evs[0]
         stats["texts"] += 1
@@ -380,7 +447,7 @@ def _texts(chk: Check, per_template, n_fuzz):
             chk.nontrivial(("text", tid, info["beautify"], info["repl"]))
     chk.cov["c11"] = stats
     chk.cov["c11_drift"] = drift = {}
-    if stats["fuzz_texts"] and not (stats["fuzz_with_eval_operator"] and stats["fuzz_evaluated_unsafe"]):
+    if stats["fuzz_texts"] and not (stats["fuzz_with_eval_operator"] and stats["fuzz_evaluated_unsafe"] and stats["fuzz_nonliteral_values"]):
         raise common.MachineryError("text fuzz never reached the eval operator: %r" % stats)
     for ti_, j, ev in rej:
         chk.violation("text trace rejected by HumanText_Trace", {"kind": "human-text", "class": "trace-rejected"},
@@ -398,9 +465,13 @@ def _texts(chk: Check, per_template, n_fuzz):
         if not clauses:
             continue
         if info.get("fuzz"):
-            bad = [e for e in evs if (e["safe"] and e["evaluated"])] or evs[:1]
+            def suspicious(e):
+                return (e["safe"] and e["evaluated"]) or (e["okind"] != "exc" and any(
+                    t["k"] == "assign" and not t["ev"] and t["val"] in ("expr", "junk") for t in e["toks"]))
+            k = next((i for i, e in enumerate(evs) if suspicious(e)), 0)
             chk.violation("safe-mode clause: %s" % sorted(clauses)[0], {"kind": "human-text-fuzz", "clauses": sorted(clauses)},
-                          {"message": tmpls[ti].name, "example": common._clip(bad[0])})
+                          {"message": tmpls[ti].name, "safe": evs[k]["safe"], "outcome": evs[k]["outcome"], "text": info["texts"][k],
+                           "tokens": common._clip(evs[k]["toks"], 40)})
             continue
         ev = evs[0]
         for cls in info["cls"] or ["other"]:
@@ -443,9 +514,9 @@ def run(chk: Check):
 
 def _run(chk: Check):
     if chk.tier == "quick":
-        _model(chk, False, 4)
+        _model(chk, False, 3)
         _texts(chk, 3, 3)
     else:
-        _model(chk, True, 5)
+        _model(chk, True, 4)
         _texts(chk, 24, 6)
     chk.cov["exhaustive"] = True
